@@ -50,6 +50,12 @@ def attack_streams(quick):
         out.append(("%s.payload-garbage" % bname, bname, base[:40] + bytes((b * 7 + 1) % 256 for b in range(len(base) - 40))))
         out.append(("%s.compressed-flag-on-plain" % bname, bname, base[:8] + (2).to_bytes(2, "big") + base[10:]))
         out.append(("%s.twice" % bname, bname, base + base))
+        # compressed flag set and a payload that is a *valid prefix* of a deflate stream (cut inside / empty), length fields consistent
+        import zlib
+        body = base[40:]
+        z = zlib.compress(body + body)
+        for zl, zb in (("zlib-cut-5", z[:-5]), ("zlib-cut-half", z[:len(z) // 2]), ("zlib-header-only", z[:2]), ("zlib-empty", b"")):
+            out.append(("%s.%s" % (bname, zl), bname, base[:8] + (2).to_bytes(2, "big") + base[10:12] + len(zb).to_bytes(4, "big") + (0).to_bytes(4, "big") + base[20:40] + zb))
 
     def inv(obj, meth, args=(), kw=None, flags=0):
         return bytes(protocol.SendingMessage(protocol.MSG_INVOKE, flags, 3, ser.serializer_id, ser.dumpsCall(obj, meth, args, kw or {})).data)
